@@ -524,6 +524,24 @@ def huge_trace(seed: int, rank: int = 0, **over: Any) -> Dict[str, Any]:
     return gen_trace(rnd, **p)
 
 
+def clone_reordered(rnd: random.Random, trace: Dict[str, Any], rank: int) -> Dict[str, Any]:
+    """The same events as another rank's file under another rank label and in another file order: the rank brings no symbol of
+    its own, only another order of first appearance (its local symbol ids differ from the global ones)."""
+    import copy
+    tr = copy.deepcopy(trace)
+    tr["distributedInfo"]["rank"] = rank
+    evs = tr["traceEvents"]
+    xs = [e for e in evs if e.get("ph") == "X"]
+    others = [e for e in evs if e.get("ph") != "X"]
+    rnd.shuffle(xs)
+    # event 0 of the file stays a host operator (the link sentinel 0 must not denote a launch or a kernel)
+    first = next((i for i, e in enumerate(xs) if e.get("cat") in ("cpu_op", "user_annotation")), None)
+    if first is not None:
+        xs.insert(0, xs.pop(first))
+    tr["traceEvents"] = xs + others
+    return tr
+
+
 def add_device_spans(rnd: random.Random, trace: Dict[str, Any], p: float = 0.5) -> int:
     """Insert device-side events that are NOT kernels / copies / memsets / sync records but carry a stream id: GPU-side user
     annotations and profiler ranges spanning a run of kernels of one stream.  They are legitimate trace content and must not be
